@@ -110,7 +110,7 @@ def run(ctx: Ctx):
             for seq in itertools.product(SYMBOLIC_ALPHABET, repeat=n):
                 run_history(ctx, base + list(seq), f"exhaustive{bv}")
     # (b) random
-    for _ in range(ctx.budget(300, 6000)):
+    for _ in range(ctx.budget(300, 4000)):
         run_history(ctx, random_history(rng), "random")
 
 
